@@ -1433,7 +1433,6 @@ Section Shape.
       remember (LL a) as L0. destruct K0. split; cbn; auto; try discriminate.
       intros x Hx. inversion Hx; subst x. repeat split; auto.
   Qed.
-(* ==DEV== *)
   (** *** compact_list, loop 1 *)
 
   (** the combiner reads nState of its own linked record: it is active *)
@@ -1482,5 +1481,130 @@ Section Shape.
     exists (setv a t (set_nx l (Some (r, nxt g r)))). split; [|split; [apply frame_setv|rewrite view_setv; apply K]].
     eapply Inv_view; eauto; [|apply nolost_acc].
     destruct K0. split; cbn; auto. intros r0 n Hn. inversion Hn; subst r0 n. auto.
+  Qed.
+(* ==DEV== *)
+  (** the unlink CAS of compact_list: pPrev->pNext.compare_exchange( p, pNext ) *)
+  Lemma safe_cas_unlink_b R t x r n (act : bool) (k : V -> prog R) l Q :
+    w_pp l = Some x -> w_cur l = Some r -> w_nx l = Some (r, n) -> w_deact l = None -> w_tgt l = None -> w_own l = OUnk ->
+    (act = false -> w_cand l = Some r) ->
+    (forall v, v <> Datatypes.S r -> safe t (k (vN v)) (set_nx (set_cur l (tgt_of v)) None) Q) ->
+    safe t (k (vN (Datatypes.S r)))
+         (set_link (set_deact (set_nx (set_cur l (tgt_of n)) None) (if act then Some r else None)) false) Q ->
+    safe t (Act (@a_cas C Rs P x FNext (Datatypes.S r) n) k) l Q.
+  Proof.
+    intros Hp Hc Hn Hd Ht Ho Hcand K1 K2. cbn [Conc.safe]. intros g a tr Hi Hv. unfold view in Hv. unfold a_cas.
+    pose proof Hi as (Hl & HG & HK). pose proof (HK t) as K0. rewrite Hv in K0.
+    change (get_fld (g_recs g x) FNext) with (nxt g x).
+    destruct (k_pp K0 Hp) as (Hh & Hxin).
+    assert (Hpn : w_pp l <> None) by (rewrite Hp; discriminate).
+    destruct (k_cur K0 Hc) as (_ & _ & _ & Hrin). specialize (Hrin Hpn).
+    destruct (k_nx K0 Hn) as (_ & _ & Hnr).
+    pose proof (gl_nodup HG) as Hnd.
+    destruct (Nat.eqb_spec (nxt g x) (Datatypes.S r)) as [Ex|Ex]; cbn [fst snd].
+    2:{ (* the CAS failed: p takes the observed value *)
+        exists (setv a t (set_nx (set_cur l (tgt_of (nxt g x))) None)).
+        split; [|split; [apply frame_setv|rewrite view_setv; apply K1; exact Ex]].
+        eapply Inv_view; eauto; [|apply nolost_acc].
+        rewrite (gl_link HG Hxin). destruct (succ_of (LL a) x) as [y|] eqn:Es; cbn [ptr tgt_of].
+        - pose proof (@succ_not_first head (s_pl a) x y Hnd Es) as Hy. apply succ_in in Es.
+          remember (LL a) as L0. destruct K0. split; cbn; auto; try discriminate.
+          intros y' Hy'. inversion Hy'; subst y'. split; [exact Hh|]. split; [rewrite HeqL0 in Es; exact Es|].
+          split; [rewrite Ht; discriminate|intros _; exact Hy].
+        - remember (LL a) as L0. destruct K0. split; cbn; auto; discriminate. }
+    (* the CAS succeeded: r is unlinked *)
+    rewrite Ex.
+    assert (Esx : succ_of (LL a) x = Some r).
+    { pose proof (gl_link HG Hxin) as E. rewrite Ex in E. change (Datatypes.S r) with (ptr (Some r)) in E. apply ptr_inj in E. congruence. }
+    assert (Hxr : x <> r) by (intros E; apply (@succ_ne _ Hnd x r Esx); congruence).
+    assert (Hhr : head <> r).
+    { intros E. unfold LL in Hnd. apply NoDup_cons_iff in Hnd. destruct Hnd as [A _]. apply A. rewrite E. exact Hrin. }
+    assert (Hrl : In r (LL a)) by (right; exact Hrin).
+    pose proof (gl_link HG Hrl) as Enr. rewrite Hnr in Enr.
+    own_fields g x FNext n. set (g' := upd_rec g x (set_fld (g_recs g x) FNext n)) in *.
+    assert (Hx : forall q, stt g' q = stt g q /\ rq g' q = rq g q /\ (q <> x -> nxt g' q = nxt g q) /\ nxt g' x = n).
+    { intros q. fields_of Hf q. fields_of Hf x. rewrite Nat.eqb_refl. destruct (Nat.eqb_spec q x); repeat split; auto; congruence. }
+    set (pl' := del r (s_pl a)).
+    set (l' := set_link (set_deact (set_nx (set_cur l (tgt_of n)) None) (if act then Some r else None)) false).
+    assert (HL' : head :: pl' = del r (LL a)) by (unfold LL, pl'; rewrite del_LL by exact Hhr; reflexivity).
+    exists (setv (setpl a pl') t l').
+    split; [|split; [eapply frame_trans; [apply frame_setpl|apply frame_setv]|unfold view; cbn; rewrite upd_same; exact K2]].
+    assert (Hun : forall y, unowned a y <-> unowned (setv (setpl a pl') t l') y).
+    { intros y. unfold unowned; cbn. split; intros H v; specialize (H v); unfold upd in *;
+        (destruct (Nat.eqb_spec v t) as [E|E]; [rewrite E in *|]); subst l'; cbn in *; congruence. }
+    assert (Hown : forall t0, w_my (s_v a t0) = Some r -> w_own (s_v a t0) = OUnk /\ stt g r = st_active).
+    { intros t0 Ht0. split.
+      - destruct (w_own (s_v a t0)) eqn:E; auto; exfalso; apply (k_unl (HK t0)) with (r := r); auto; rewrite E; discriminate.
+      - destruct (gl_pl HG _ Hrin) as [_ Hni]. pose proof (gl_st HG r) as H2.
+        destruct (Nat.eq_dec (stt g r) st_removed) as [E|E]; [exfalso; apply (gl_rem HG E t0); exact Ht0|].
+        unfold st_active, st_inactive, st_removed in *. lia. }
+    refine (@holder_step g g' a tr t l l' pl' _ Hi Hv Hh _ _ _ eq_refl _ _ _ _ _ _ _).
+    - subst l'. reflexivity.
+    - subst l'. reflexivity.
+    - subst l'. cbn. exact Hh.
+    - intros y Hy. apply in_del in Hy. apply Hy.
+    - intros q Hne. left. destruct (Nat.eq_dec q x) as [->|Hq]; [exact Hxin|]. exfalso. apply Hne. apply (Hx q). exact Hq.
+    - intros q Hne. exfalso. apply Hne. apply (Hx q).
+    - intros q Hne. exfalso. apply Hne. apply (Hx q).
+    - apply nolost_acc.
+    - (* Glob *)
+      destruct HG. split; unfold LL; cbn [s_pl setv setpl].
+      + intros Hfr u. cbn. unfold upd. destruct (Nat.eqb_spec u t) as [E|E]; [exfalso; pose proof (gl_free0 Hfr t) as F; rewrite Hv in F; congruence|auto].
+      + intros u u' H1 H2. cbn in *. unfold upd in *. apply gl_uniq0;
+          [destruct (Nat.eqb_spec u t) as [E|E]|destruct (Nat.eqb_spec u' t) as [E|E]]; subst; subst l'; cbn in *; congruence.
+      + intros u u' r0 H1 H2. cbn in *. unfold upd in *. apply (gl_inj0 u u' r0);
+          [destruct (Nat.eqb_spec u t) as [E|E]|destruct (Nat.eqb_spec u' t) as [E|E]]; subst; subst l'; cbn in *; congruence.
+      + intros q Hq. rewrite HL' in Hq |- *. apply in_del in Hq. destruct Hq as [Hq Hqr].
+        rewrite (succ_del Hnd Hqr). destruct (Nat.eq_dec q x) as [->|Hqx].
+        * rewrite Esx, Nat.eqb_refl. destruct (Hx x) as (_ & _ & _ & E). rewrite E. exact Enr.
+        * destruct (Hx q) as (_ & _ & E & _). rewrite (E Hqx), (gl_link0 q Hq).
+          destruct (succ_of (LL a) q) as [y|] eqn:Es; [|reflexivity].
+          destruct (Nat.eqb_spec y r) as [E2|E2]; [|reflexivity]. exfalso. apply Hqx. subst y. eapply (@succ_inj _ Hnd); eauto.
+      + rewrite HL'. apply NoDup_del. exact gl_nodup0.
+      + intros y Hy. apply in_del in Hy. destruct Hy as [Hy _]. destruct (Hx y) as (E & _). rewrite E. apply gl_pl0. exact Hy.
+      + intros y Hs. destruct (Hx y) as (E & _). rewrite E in Hs.
+        destruct (Nat.eq_dec y r) as [->|Hyr].
+        * destruct act.
+          -- right. right. left. exists t. cbn. rewrite upd_same. subst l'. reflexivity.
+          -- right. right. right. apply Hun. apply (k_cand K0 (Hcand eq_refl)).
+        * destruct (gl_act0 y Hs) as [A|[(u & A & B)|[(u & A)|A]]].
+          -- left. apply in_del. auto.
+          -- right. left. exists u. cbn. unfold upd. destruct (Nat.eqb_spec u t) as [E1|E1]; [|auto].
+             subst u. subst l'. cbn. rewrite <- Hv. auto.
+          -- right. right. left. exists u. cbn. unfold upd. destruct (Nat.eqb_spec u t) as [E1|E1]; [|exact A].
+             subst u. rewrite Hv in A. congruence.
+          -- right. right. right. apply Hun. exact A.
+      + intros y Hs. apply Hun. apply gl_rem0. destruct (Hx y) as (E & _). rewrite <- E. exact Hs.
+      + intros y Hle. destruct (Hx y) as (E & _). rewrite E. apply gl_fresh0. exact Hle.
+      + destruct (Hx head) as (E & _). rewrite E. exact gl_head0.
+      + intros y. destruct (Hx y) as (E & _). rewrite E. apply gl_st0.
+    - (* Know of the combiner *)
+      assert (Hcur : forall y, tgt_of n = Some y -> In y (head :: pl') /\ In y pl').
+      { intros y Hy. destruct (succ_of (LL a) r) as [y'|] eqn:Es; cbn in Enr; subst n; cbn in Hy; [|discriminate].
+        inversion Hy; subst y'. pose proof (@succ_not_first head (s_pl a) r y Hnd Es) as Hyp.
+        assert (y <> r) by (apply (@succ_ne _ Hnd r y Es)).
+        split; [right|]; apply in_del; auto. }
+      destruct K0. subst l'. split; cbn [s_pl setv setpl LL]; cbn.
+      + exact k_my0.
+      + rewrite Ho. intros F. exfalso. apply F. reflexivity.
+      + rewrite Ho. discriminate.
+      + rewrite Ho. intros p _ F. exfalso. apply F. reflexivity.
+      + intros Hw r0 H0. destruct (Hx r0) as (_ & E & _). rewrite E. auto.
+      + intros Hw r0 H0. destruct (Hx r0) as (_ & E & _). rewrite E. auto.
+      + discriminate.
+      + intros y Hy. destruct (Hcur y Hy) as [A B]. split; [exact Hh|]. split; [exact A|]. split; [rewrite Ht; discriminate|intros _; exact B].
+      + intros x' Hx'. rewrite Hp in Hx'. inversion Hx'; subst x'. split; [exact Hh|].
+        destruct Hxin as [E|Hin]; [left; exact E|right; apply in_del; auto].
+      + discriminate.
+      + intros r0 Hr0. destruct act; [|discriminate]. inversion Hr0; subst r0.
+        split; [exact Hh|]. split; [intros Hin; apply in_del in Hin; apply (proj2 Hin); reflexivity|].
+        split; [apply (gl_pl HG _ Hrin)|].
+        intros t0 Ht0. cbn in Ht0. unfold upd in *. cbn. unfold upd. destruct (Hx r) as (E & _). rewrite E.
+        destruct (Nat.eqb_spec t0 t) as [E2|E2].
+        * cbn. rewrite Ho. split; [reflexivity|]. apply (Hown t). rewrite Hv. exact Ht0.
+        * apply Hown. exact Ht0.
+      + intros y Hy. destruct (k_cand0 y Hy) as (A & B). split; [apply Hun; exact A|exact B].
+      + intros y Hy. destruct (k_vic0 y Hy) as (A & B & D & F). split; [apply Hun; exact A|]. repeat split; auto.
+        intros Hin. apply in_del in Hin. apply F. apply Hin.
+      + rewrite Ht. discriminate.
   Qed.
 End Shape.
